@@ -390,6 +390,39 @@ func (g *Gen) genDiff(t *tape.Tape, pre *refstate.State, d *core.StateDiff, clas
 					}
 				}
 			}
+		case 6: // twin storage: one existing contract's storage is made equal to another's, slot for slot
+			// (two storage tries with the same root and the same nodes: whatever shares, caches or
+			// deduplicates trie nodes by hash meets the same node under two owners)
+			if len(existing) < 2 {
+				continue
+			}
+			src := existing[t.Draw("twin.src", len(existing))]
+			dst := existing[t.Draw("twin.dst", len(existing))]
+			if src.Equal(&dst) {
+				continue
+			}
+			m := d.StorageDiffs[dst]
+			if m == nil {
+				m = map[felt.Felt]*felt.Felt{}
+				d.StorageDiffs[dst] = m
+			}
+			sc, dc := pre.Contracts[src], pre.Contracts[dst]
+			for _, k := range refstate.SortedFelts(dc.Storage) {
+				var z felt.Felt
+				if v, ok := sc.Storage[k]; ok {
+					z = v
+				}
+				m[k] = &z
+			}
+			for _, k := range refstate.SortedFelts(sc.Storage) {
+				v := sc.Storage[k]
+				m[k] = &v
+			}
+			// slots the source is written to in this very block are copied too
+			for _, k := range refstate.SortedFelts(d.StorageDiffs[src]) {
+				v := *d.StorageDiffs[src][k]
+				m[k] = &v
+			}
 		case 5: // system contract storage
 			a := f(uint64(1 + t.Draw("sys.addr", 2)))
 			g.slotWrite(t, pre, d, a, true)
